@@ -4089,7 +4089,7 @@ func ownershipShapes(repo string) {
 	fmt.Fprintf(&out, "\n(* ownership shapes of the receive path (C09): what is copied, what is shared *)\n")
 	// ---- unpack
 	if fd := method("packageParse", "unpack"); fd == nil {
-		unrec("ownership/unpack", "method packageParse.unpack not found")
+		fail("ownership/unpack", "method packageParse.unpack not found")
 	} else {
 		var firstDecode, clonePos token.Pos
 		histNil, histBad := false, ""
@@ -4123,29 +4123,29 @@ func ownershipShapes(repo string) {
 			return true
 		})
 		if firstDecode == 0 {
-			unrec("ownership/unpack", "no .Decode(data) call")
+			fail("ownership/unpack", "no .Decode(data) call")
 		} else {
 			fmt.Fprintf(&out, "Definition gen_fastpath_clones : bool := %v.\n", clonePos != 0 && clonePos < firstDecode)
 		}
 		if histBad != "" && histBad != "p.historyData[0:0]" && histBad != "p.historyData[:0]" {
-			unrec("ownership/unpack", "p.historyData is assigned "+histBad)
+			fail("ownership/unpack", "p.historyData is assigned "+histBad)
 		} else {
 			fmt.Fprintf(&out, "Definition gen_history_nil : bool := %v.\n", histNil && histBad == "")
 		}
 	}
 	// ---- add: the timeout record's header
 	if fd := method("packageParse", "add"); fd == nil {
-		unrec("ownership/add", "method packageParse.add not found")
+		fail("ownership/add", "method packageParse.add not found")
 	} else if v := keyed(fd, "packageComplete", "initHeader"); v == nil {
-		unrec("ownership/add", "no packageComplete{initHeader: ..}")
+		fail("ownership/add", "no packageComplete{initHeader: ..}")
 	} else if k, ok := classify(scan(fd), v, map[string]bool{hdrParam(fd, 1): true}); !ok {
-		unrec("ownership/add", "initHeader: "+str(v)+" is neither the parameter nor a recognised copy of it")
+		fail("ownership/add", "initHeader: "+str(v)+" is neither the parameter nor a recognised copy of it")
 	} else {
 		fmt.Fprintf(&out, "Definition gen_record_header_share : N := %d.\n", k)
 	}
 	// ---- completePack: the merged message's header
 	if fd := method("packageParse", "completePack"); fd == nil {
-		unrec("ownership/completePack", "method packageParse.completePack not found")
+		fail("ownership/completePack", "method packageParse.completePack not found")
 	} else {
 		sh := scan(fd)
 		jm, has := sh.addrAsg["completeMsg.JTMessage"]
@@ -4153,13 +4153,13 @@ func ownershipShapes(repo string) {
 		case !has:
 			fmt.Fprintf(&out, "Definition gen_merged_header_share : N := 0.\n")
 		case sh.derefDef[jm] != "msg.JTMessage":
-			unrec("ownership/completePack", "completeMsg.JTMessage = &"+jm+" which is not a copy of *msg.JTMessage")
+			fail("ownership/completePack", "completeMsg.JTMessage = &"+jm+" which is not a copy of *msg.JTMessage")
 		default:
 			ch, ok := sh.addrAsg[jm+".Header"]
 			if !ok {
 				fmt.Fprintf(&out, "Definition gen_merged_header_share : N := 0.\n") // own JTMessage struct, same *Header
 			} else if k, ok := classify(sh, &ast.UnaryExpr{Op: token.AND, X: ast.NewIdent(ch)}, map[string]bool{"msg.JTMessage.Header": true, jm + ".Header": true}); !ok {
-				unrec("ownership/completePack", jm+".Header = &"+ch+" is not a recognised copy of the packet's header")
+				fail("ownership/completePack", jm+".Header = &"+ch+" is not a recognised copy of the packet's header")
 			} else {
 				fmt.Fprintf(&out, "Definition gen_merged_header_share : N := %d.\n", k)
 			}
@@ -4167,11 +4167,11 @@ func ownershipShapes(repo string) {
 	}
 	// ---- sessionManager.join: the header platform commands are encoded on
 	if fd := method("sessionManager", "join"); fd == nil {
-		unrec("ownership/join", "method sessionManager.join not found")
+		fail("ownership/join", "method sessionManager.join not found")
 	} else if v := keyed(fd, "session", "header"); v == nil {
-		unrec("ownership/join", "no session{header: ..}")
+		fail("ownership/join", "no session{header: ..}")
 	} else if k, ok := classify(scan(fd), v, map[string]bool{hdrParam(fd, 0) + ".Header": true, hdrParam(fd, 0) + ".JTMessage.Header": true}); !ok {
-		unrec("ownership/join", "header: "+str(v)+" is neither the message's header nor a recognised copy of it")
+		fail("ownership/join", "header: "+str(v)+" is neither the message's header nor a recognised copy of it")
 	} else {
 		fmt.Fprintf(&out, "Definition gen_session_header_share : N := %d.\n", k)
 	}
